@@ -247,3 +247,9 @@ func sequentialAPI(r *ev.Run) (int, int) {
 	}
 	return res.States, res.Transitions
 }
+
+// ModelKey is the layout-independent state key (see seqmc.ModelKeyer): which handles exist and are
+// subscribed, the retained publisher's target, the other PubSub's subscription.
+func (x *apiH) ModelKey() string {
+	return fmt.Sprint(len(x.handles), x.live, x.retained != nil, x.retFor, x.otherLive)
+}
